@@ -883,7 +883,7 @@ func registerC08() {
 		},
 		Components: libComponents,
 		Workloads: []*Workload{
-			mk("short-histories", map[string]int{"quick": 12000, "thorough": 1500000}, false),
+			mk("short-histories", map[string]int{"quick": 12000, "thorough": 900000}, false),
 			mk("long-histories", map[string]int{"quick": 96, "thorough": 12000}, true),
 			{
 				Name:        "very-long-histories",
